@@ -76,10 +76,13 @@ def draw(kind: str, dim: int, n: int, bits: int, seed: int, stratum: str = "gene
         U = np.zeros((n, n))
         for (i, j) in E:
             v = float(rng.choice([-1.0, 1.0]) * rng.uniform(0.5, 1.5))
+            if stratum == "cancel":
+                # small alphabet of both signs: row sums, sums across a cut and products cancel EXACTLY in floating point
+                v = float(rng.choice([-2.0, -1.0, -0.5, 0.5, 1.0, 2.0]))
             if stratum == "wide":
                 v *= float(10.0 ** rng.integers(-3, 4))
             U[i, j] = U[j, i] = v
-        if not need_unique or stratum == "wide":
+        if not need_unique or stratum in ("wide", "cancel"):
             break
         vals = sorted(c[0] for c in candidates(n, U, E))
         if stratum == "wide" or all(b - a > 1e-7 for a, b in zip(vals, vals[1:])):
@@ -502,7 +505,7 @@ def run(ctx: Ctx) -> None:
 
     # ---------------------------------------------------------------- (3) dense sweep on the real code
     sweep = []
-    strata = ["generic", "special", "wide"]
+    strata = ["generic", "special", "wide", "cancel"]
 
     def add(kind, dim, ns, bits_list, stratum, size):
         for a in range(0, len(bits_list), size):
@@ -516,7 +519,10 @@ def run(ctx: Ctx) -> None:
             allb = list(range(2 ** len(pairs(ns))))
             for kind in ("rydberg", "xy"):
                 for si, stratum in enumerate(strata):
-                    bl = allb if si == 0 else [b for b in allb if (b * 2654435761 + si) % (4 if ns <= 5 else 16) == 0]
+                    if stratum == "cancel":
+                        bl = allb if ns <= 4 else [b for b in allb if (b * 2654435761 + si) % 4 == 0]
+                    else:
+                        bl = allb if si == 0 else [b for b in allb if (b * 2654435761 + si) % (4 if ns <= 5 else 16) == 0]
                     add(kind, dim, ns, bl, stratum, 64 if (dim == 2 or ns <= 4) else 16)
     samples = {2: {6: ctx.pick(300, 0), 7: ctx.pick(100, 4000), 8: ctx.pick(20, 400)},
                3: {5: ctx.pick(128, 0), 6: ctx.pick(8, 400), 7: ctx.pick(0, 24)}}
